@@ -27,11 +27,19 @@ var checks = map[string]func(tier string) int{
 	"C17": props.CheckC17,
 	"C18": props.CheckC18,
 	"C19": props.CheckC19,
+	"C20": props.CheckC20,
 }
 
 func main() {
 	if len(os.Args) >= 3 && os.Args[1] == "helper" && os.Args[2] == "export-default" {
 		props.HelperExportDefault()
+		return
+	}
+	if len(os.Args) >= 6 && os.Args[1] == "helper" && os.Args[2] == "fingerprints" {
+		var p, d int
+		fmt.Sscan(os.Args[4], &p)
+		fmt.Sscan(os.Args[5], &d)
+		props.HelperFingerprints(os.Args[3], p, d)
 		return
 	}
 	if len(os.Args) < 3 || os.Args[1] != "check" {
